@@ -502,3 +502,71 @@ def check_rfc_keys(run, rule, analyses_by_struct, only=None):
                    "member %s is written as CBOR %s%s but RFC 8618 types it %s" % (
                        rname, wk, ("[%s]" % ek) if v is not None and v.elem is not None else "", t))
     return n
+
+
+def check_reindex_loops(run, rule):
+    """A loop over a table's own items that fills its reverse index (`for (item : items_) indexes_[key(item)] = pos++;` - what the
+    copy operations use to re-derive the index from their own storage) gives every item its position: the stored value is a
+    local that starts at 0 in front of the loop, is stored and then incremented by one per item (post-increment in the store,
+    or an increment later in the body) and written nowhere else.  Anything else that stores a local counter: `pos--`, a
+    pre-increment, a start other than 0 = violation; other shapes are not looked at."""
+    from . import ir
+    from .ir import path, unwrap, unwrap_all_casts, const_value, show
+    facts = run.facts
+    n = 0
+    seen_pat = set()
+    for f in sorted(facts.functions.values(), key=lambda f_: (f_.get("file", ""), f_.get("line", 0), f_.get("qn", ""))):
+        if not (f.get("cls") or "").startswith("CDNS::BlockTable<") or f.get("body") is None:
+            continue
+        for lp, parents in ir.walk_with_parents(f["body"]):
+            if lp.get("k") != "RangeFor" or not path(lp.get("range")) or path(lp["range"])[0] != "this":
+                continue
+            stores = []
+            for x in ir.walk(lp.get("body")):
+                if x.get("k") == "Bin" and x.get("op") == "=":
+                    l_ = unwrap_all_casts(x.get("lhs"))
+                    if isinstance(l_, dict) and l_.get("k") == "OpCall" and l_.get("op") == "[]" and l_.get("args") and path(l_["args"][0]) and \
+                            path(l_["args"][0])[0] == "this" and "map<" in ((l_.get("callee") or {}).get("cls") or ""):
+                        stores.append(x)
+            if len(stores) != 1:
+                continue
+            st = stores[0]
+            r_ = unwrap_all_casts(st.get("rhs"))
+            ctr = None
+            how = None
+            if isinstance(r_, dict) and r_.get("k") == "Un" and r_.get("op") in ("post++", "post--", "pre++", "pre--") and path(r_.get("e")) and path(r_["e"])[0].startswith("l:"):
+                ctr, how = path(r_["e"])[0], r_["op"]
+            elif isinstance(r_, dict) and r_.get("k") == "Ref" and path(r_) and path(r_)[0].startswith("l:"):
+                ctr, how = path(r_)[0], "plain"
+            if ctr is None:
+                continue
+            pat = (f.get("file"), lp.get("l"))
+            if pat in seen_pat:
+                continue            # (one obligation per template pattern, not per specialisation)
+            seen_pat.add(pat)
+            n += 1
+            init = None
+            for d in ir.walk(f["body"]):
+                if d.get("k") == "Decl":
+                    for v in d.get("vars", []):
+                        if "l:%s#%s" % (v.get("n"), v.get("id")) == ctr and v.get("init") is not None:
+                            init = const_value(v["init"])
+            writes = [x for x in ir.walk(f["body"]) if (x.get("k") == "Un" and x.get("op") in ("post++", "post--", "pre++", "pre--") and path(x.get("e")) == (ctr,)) or
+                      (x.get("k") == "Bin" and x.get("op") in ("=", "+=", "-=") and path(x.get("lhs")) == (ctr,))]
+            if how == "post++":
+                ok = init == 0 and len(writes) == 1
+            elif how == "plain":
+                later = [w for w in writes if any(w is y for y in ir.walk(lp.get("body")))]
+                ok = init == 0 and len(writes) == 1 and len(later) == 1 and (
+                    (later[0].get("k") == "Un" and later[0].get("op") in ("post++", "pre++")) or
+                    (later[0].get("k") == "Bin" and later[0].get("op") == "+=" and const_value(later[0].get("rhs")) == 1))
+                order = {id(x): i for i, x in enumerate(ir.walk(lp.get("body")))}
+                ok = ok and order.get(id(later[0]), -1) > order.get(id(st), 0) if later else False
+            else:
+                ok = False
+            name = ctr.split("#")[0][2:]
+            run.ob(rule, "%s:reindex-gives-positions" % f["qn"].split("::")[-1], ok, f, st.get("l", 0),
+                   "every item is entered under its position (%s starts at 0 and is incremented once per item, after the store)" % name if ok else
+                   "the reverse index is filled with %s (%s starts at %s): after a copy / assignment of the table a lookup returns an index that is "
+                   "not the item's position - records refer to the wrong table entries" % (show(st.get("rhs")), name, init))
+    run.info["reindex_loops"] = n
